@@ -25,6 +25,9 @@ func init() {
 			{ID: "C03.R4", Text: "wrapper literals embed the handler's own event copy; Offset.SeqNo/CollectionName/EventTime derive from that event; no field of a gocbcore event or of an offset is written in place", Run: c03r4},
 			{ID: "C03.R5", Text: "types emitted by the observer = listener type-switch arms ∪ {gocbcore.DcpSnapshotMarker, gocbcore.DcpOSOSnapshot}", Run: c03r5},
 			{ID: "C03.R7", Text: "the rollback filter removes exactly the events at or below the position already reached: skip ⇔ need ∧ seq ≤ F, and the first event at or beyond F ends the catch-up without being swallowed unless it is F itself (same rule as C08.R5)", Run: c08r5},
+			{ID: "C03.R8", Text: "the documented filters are the configured ones: defaulting never rewrites a configured option such as listener.skipUntil (same rule as C17.R1)", Run: c17r1},
+			{ID: "C03.R9", Text: "no event waits for a threshold nobody reports: the flag the gate reads is the one Open switches when it does not start the mitigation component (same rule as C07.R12)", Run: gateSourceAgrees},
+			{ID: "C03.R10", Text: "the collection names are those resolved at start-up: stream.collectionIDs is assigned only by NewStream", Run: fieldWriters("stream", "stream", "collectionIDs", "a later assignment (a refresh that failed, say) hands every new observer a different or nil id-to-name table", "stream.NewStream")},
 			{ID: "C03.R6", Text: "the delivery switch is thrown only by the stream's close: observer.closed is written only by Observer.Close, which is called only from Stream.Close (a reopened stream reuses its observer)", Run: switchOwner},
 		},
 	})
